@@ -5,11 +5,14 @@ package main
 
 import (
 	"fmt"
+	"hash/maphash"
 	"math"
 	"os"
 	"path/filepath"
 	"runtime"
 	"strings"
+	"sync"
+	"sync/atomic"
 
 	"github.com/whatap/golib/logger/logfile"
 
@@ -80,6 +83,7 @@ func biasedLen(r *vlib.Rand, size int64) int64 {
 }
 
 func secRead(c *vlib.Ctx, n int) {
+	curSec = "read-window"
 	c.Cases("read-window", n, func(i int, r *vlib.Rand) {
 		day := randDay(r)
 		setVirtual(day*dayMs + int64(r.Range(10*60*1000, 20*3600*1000)))
@@ -259,4 +263,282 @@ func shape(endpos, length, size int64) string {
 		l = "len-beyond-size"
 	}
 	return e + "," + l
+}
+
+// ---- 5b. read while logging --------------------------------------------------------------------
+//
+// Several goroutines log (every entry point, unique ids) while others call Read on the live file
+// with tail requests (endpos < 0) and explicit end positions of every kind. The log file is only
+// ever appended to, so whatever the interleaving was, each returned (Before, Text) must equal the
+// bytes [Before, Before+len(Text)) of the file as it is after the run. The lines themselves are
+// judged by the multi-goroutine oracle. Also runs under the race detector.
+
+type liveObs struct {
+	Reader, K      int
+	Name           string
+	Endpos, Length int64
+	Size0, Size1   int64 // size of the file seen by the monitor just before / just after the call
+	Nil            bool
+	Panic          string
+	Before, Next   int64
+	N              int    // len(Text)
+	Sum            uint64 // hash of Text
+	Head, Tail     string // first / last bytes of Text
+}
+
+var liveSeed = maphash.MakeSeed()
+
+func liveLen(r *vlib.Rand, size int64) int64 {
+	switch x := r.Intn(20); {
+	case x < 6:
+		return int64(r.Range(1, 256))
+	case x < 9:
+		return int64(pickInt(r, 64, 100, 1024, 4096, 8192))
+	case x < 15:
+		return int64(r.Range(257, 8192))
+	}
+	return biasedLen(r, size)
+}
+
+func livePos(r *vlib.Rand, size int64) int64 {
+	switch x := r.Intn(20); {
+	case x < 7:
+		return -1
+	case x < 8:
+		return int64(-2 - r.Intn(1000))
+	case x < 9:
+		return math.MinInt64
+	}
+	return biasedPos(r, size)
+}
+
+func secReadLive(c *vlib.Ctx, n int) {
+	curSec = "read-while-logging"
+	race := c.Flavour == "race"
+	var nilSeen atomic.Int64
+	c.Cases("read-while-logging", n, func(i int, r *vlib.Rand) {
+		if !race {
+			setVirtual(randDay(r)*dayMs + int64(r.Range(5*60*1000, 20*3600*1000)))
+		}
+		day := dayOf(vnow())
+		s := newScn(c, r)
+		defer s.close()
+		s.useApply = r.Chance(4, 5)
+		if s.useApply {
+			s.interval = pickInt(r, 0, 0, -1, 10)
+			s.rot = !r.Chance(1, 5)
+			s.keep = pickInt(r, 0, 7, 7, 30)
+		}
+		G := pickInt(r, 1, 2, 2, 4, 4, 8)
+		R := pickInt(r, 1, 2, 2, 3, 4)
+		K := r.Range(60, 200)
+		// every writer logs at least minM lines and then goes on until the readers are done (at most capM)
+		minM, capM := r.Range(50, 300), 6000/G
+		if race {
+			K, minM, capM = r.Range(20, 70), r.Range(30, 100), 1600/G
+		}
+		procs := pickInt(r, 2, 4, 8, 16)
+		old := runtime.GOMAXPROCS(procs)
+		defer runtime.GOMAXPROCS(old)
+		per := make([][]*call, G+1)
+		// goroutine index G: lines written before the readers start
+		for k, m := 0, r.Range(0, 40); k < m; k++ {
+			cl := buildCall(r, G, k, r.Intn(nEP), fmt.Sprintf("W%02d%07d", G, k))
+			cl.Lvl = s.level
+			per[G] = append(per[G], cl)
+		}
+		wr := make([]*vlib.Rand, G)
+		for g := range wr {
+			wr[g] = r.Fork(fmt.Sprintf("g%d", g))
+		}
+		s.start()
+		cur := logName(s.id, s.oname, s.rot, day)
+		path := filepath.Join(s.logs, cur)
+		for _, cl := range per[G] {
+			cl.B = vnow()
+			cl.invoke(s.fl)
+			cl.A = vnow()
+		}
+		names := []string{cur, cur, cur, cur, "./" + cur, "sub/../" + cur, "../logs/" + cur}
+		size := func() int64 {
+			if st, err := os.Stat(path); err == nil {
+				return st.Size()
+			}
+			return -1
+		}
+		obs := make([][]liveObs, R)
+		var wg sync.WaitGroup
+		gate := make(chan struct{})
+		var readersLeft atomic.Int32
+		readersLeft.Store(int32(R))
+		for g := 0; g < G; g++ {
+			wg.Add(1)
+			go func(g int, rg *vlib.Rand) {
+				defer wg.Done()
+				<-gate
+				for k := 0; k < capM && (k < minM || readersLeft.Load() > 0); k++ {
+					cl := buildCall(rg, g, k, rg.Intn(nEP), fmt.Sprintf("W%02d%07d", g, k)) // unique id per line: the rate limiter never applies
+					cl.Lvl = s.level
+					per[g] = append(per[g], cl)
+					cl.B = vnow()
+					cl.invoke(s.fl)
+					cl.A = vnow()
+					if (k+g)%9 == 0 {
+						runtime.Gosched()
+					}
+				}
+			}(g, wr[g])
+		}
+		for j := 0; j < R; j++ {
+			rj := r.Fork(fmt.Sprintf("reader%d", j))
+			wg.Add(1)
+			go func(j int, rj *vlib.Rand) {
+				defer wg.Done()
+				defer readersLeft.Add(-1)
+				<-gate
+				for k := 0; k < K; k++ {
+					o := liveObs{Reader: j, K: k, Name: names[rj.Intn(len(names))]}
+					o.Size0 = size()
+					o.Endpos, o.Length = livePos(rj, o.Size0), liveLen(rj, o.Size0)
+					var res *logfile.LogData
+					if p := vlib.Catch(func() { res = s.fl.Read(o.Name, o.Endpos, o.Length) }); p != nil {
+						o.Panic = fmt.Sprint(p)
+					}
+					o.Size1 = size()
+					switch {
+					case o.Panic != "":
+					case res == nil:
+						o.Nil = true
+						if nilSeen.Add(1)%64 == 0 {
+							runtime.GC() // Read leaves the descriptor to the finalizer on its nil paths
+						}
+					default:
+						o.Before, o.Next, o.N = res.Before, res.Next, len(res.Text)
+						o.Sum = maphash.String(liveSeed, res.Text)
+						o.Head, o.Tail = res.Text[:min(96, o.N)], res.Text[max(0, o.N-96):]
+					}
+					obs[j] = append(obs[j], o)
+				}
+			}(j, rj)
+		}
+		close(gate)
+		wg.Wait()
+		if dayOf(vnow()) != day {
+			c.Inconclusive(fmt.Sprintf("read-while-logging#%d", i), "virtual day changed while the scenario ran")
+			return
+		}
+		calls := append([]*call{}, per[G]...)
+		var written []int
+		for g := 0; g < G; g++ {
+			calls = append(calls, per[g]...)
+			written = append(written, len(per[g]))
+			c.Max("max_live_lines_of_one_writer", int64(len(per[g])))
+		}
+		files, _ := readDirFiles(s.logs)
+		final := files[cur]
+		detail := func() map[string]interface{} {
+			return map[string]interface{}{"logger": s.desc(), "virtual_date": ymdOfDay(day), "writer_goroutines": G, "calls_per_writer": written,
+				"reader_goroutines": R, "reads_per_reader": K, "gomaxprocs": procs, "file": cur, "final_file_size": len(final), "files_in_logs": sortedKeys(files)}
+		}
+		// ---- the reads
+		for j := range obs {
+			for _, o := range obs[j] {
+				c.Count("live_read_calls", 1)
+				tail := o.Endpos < 0
+				od := func() map[string]interface{} {
+					d := detail()
+					d["read"] = map[string]interface{}{"reader": o.Reader, "nth_read": o.K, "file_argument": o.Name, "endpos": o.Endpos, "length": o.Length,
+						"file_size_seen_before_call": o.Size0, "file_size_seen_after_call": o.Size1, "before": o.Before, "next": o.Next, "text_bytes": o.N,
+						"text_head_hex": vlib.Hex([]byte(o.Head)), "text_tail_hex": vlib.Hex([]byte(o.Tail))}
+					return d
+				}
+				if o.Panic != "" {
+					key := "FileLogger.Read:panic"
+					if o.Length < 0 {
+						key = "FileLogger.Read:panic/negative-length"
+					}
+					d := od()
+					d["panic"] = o.Panic
+					c.Fail(key, fmt.Sprintf("Read(%q, %d, %d) on the live file panics: %s", o.Name, o.Endpos, o.Length, o.Panic), d)
+					continue
+				}
+				if o.Nil {
+					c.Count("live_read_nil_results", 1)
+					continue
+				}
+				c.Count("live_reads_compared", 1)
+				c.SetAdd("live_read_arg_shapes", shape(o.Endpos, o.Length, o.Size0))
+				if o.Length > 0 && int64(o.N) > o.Length {
+					c.Fail("FileLogger.Read:over-length", fmt.Sprintf("%d bytes returned for length %d", o.N, o.Length), od())
+				}
+				lo, hi := o.Before, o.Before+int64(o.N)
+				ok := lo >= 0 && hi <= int64(len(final))
+				if ok {
+					w := final[lo:hi]
+					ok = w[:min(96, o.N)] == o.Head && w[max(0, o.N-96):] == o.Tail && maphash.String(liveSeed, w) == o.Sum
+				}
+				if !ok {
+					d := od()
+					if lo >= 0 && hi <= int64(len(final)) {
+						w := final[lo:hi]
+						d["file_head_hex_at_before"], d["file_tail_hex_at_before"] = vlib.Hex([]byte(w[:min(96, o.N)])), vlib.Hex([]byte(w[max(0, o.N-96):]))
+					}
+					if o.N >= 12 {
+						if at := strings.Index(final, o.Head); at >= 0 && at+o.N <= len(final) && maphash.String(liveSeed, final[at:at+o.N]) == o.Sum {
+							d["text_is_actually_at_offset"] = at
+						}
+					}
+					c.Fail("FileLogger.Read:content-mismatch/live-file",
+						fmt.Sprintf("Read(%q, %d, %d) while the file was being appended to: Text is not the file's bytes [%d,%d) (final size %d)", o.Name, o.Endpos, o.Length, lo, hi, len(final)), d)
+					continue
+				}
+				grew := o.Size1 > o.Size0
+				if o.N > 0 {
+					c.Count("live_nonempty_windows_matched", 1)
+				}
+				if grew {
+					c.Count("live_reads_while_file_grew", 1)
+				}
+				if tail {
+					c.Count("live_tail_reads_matched", 1)
+					if grew && o.N > 1 {
+						c.Count("live_tail_reads_while_file_grew", 1)
+					}
+				}
+				if c.WantSample() && i%23 == 0 && tail && grew && o.N > 0 {
+					c.Sample(map[string]interface{}{"section": "read-while-logging", "endpos": o.Endpos, "length": o.Length, "file_size_seen_before_call": o.Size0,
+						"file_size_seen_after_call": o.Size1, "final_file_size": len(final), "before": o.Before, "next": o.Next, "text_bytes": o.N})
+				}
+			}
+		}
+		// ---- the lines
+		expect := map[string]bool{cur: true}
+		if s.useApply && !s.rot {
+			expect[logName(s.id, s.oname, true, day)] = true
+		}
+		for _, f := range sortedKeys(files) {
+			if !expect[f] {
+				c.Fail("FileLogger:wrong-file-name", fmt.Sprintf("unexpected file %q in logs (expected %q)", f, cur), detail())
+			}
+		}
+		if _, ok := files[cur]; !ok {
+			c.Fail("FileLogger:wrong-file-name", fmt.Sprintf("log file %q does not exist", cur), detail())
+		}
+		s.locate(files, calls, detail)
+		for _, cl := range calls {
+			if cl.present && cl.file != cur {
+				d := detail()
+				d["call"] = cl.brief()
+				c.Fail("FileLogger:wrong-file-name", fmt.Sprintf("line found in %q, current file is %q", cl.file, cur), d)
+			}
+			if cl.present {
+				c.Count("live_lines_matched", 1)
+			}
+		}
+		s.checkLevelGate(calls, detail)
+		s.checkConcurrent(calls, map[string]int{}, func(*call) string { return "FileLogger:line-lost" }, detail)
+		c.Count("live_scenarios", 1)
+		c.SetAdd("gomaxprocs_used", fmt.Sprint(procs))
+		c.Distinct(vlib.HashStr(fmt.Sprint("live", s.desc(), G, minM, R, K, len(per[G]))))
+	})
 }
